@@ -509,3 +509,46 @@ def from_bbox_origin(prog: Program) -> List[Instance]:
     if k == 0:
         out.append(Instance("R-SIGNROLE", f"{f.qual}#origin-from-snap_grid", UNDET, "resolution-driven Affine.translation not found", f.where()))
     return out
+
+
+def negative_index(prog: Program, modules: Set[str]) -> List[Instance]:
+    """An integer index turned into slice(i, i + 1) must be adjusted for negative values first (the
+    way _norm_slice does) or rejected (the way _norm_slice_or_error does); otherwise x[-1] becomes
+    slice(-1, 0), an empty or negative-length region."""
+    out: List[Instance] = []
+    for fi in prog.all_functions(modules):
+        cond = None
+        for n in walk_own(fi.node):
+            if not (isinstance(n, ast.Call) and call_name(n) == "slice" and isinstance(n.func, ast.Name) and len(n.args) == 2):
+                continue
+            a, b = n.args
+            if not (isinstance(a, ast.Name) and isinstance(b, ast.BinOp) and isinstance(b.op, ast.Add) and short(b.left) == a.id and isinstance(b.right, ast.Constant) and b.right.value == 1):
+                continue
+            idx = a.id
+            st = enclosing_stmt(n)
+            cond = cond or Conditions(fi.body)
+            # (a) adjusted:  if idx < 0: idx = n + idx  somewhere before, or
+            # (b) rejected:  a later/earlier test on negativity that raises, or
+            # (c) known non-negative by a path condition
+            adjusted = False
+            for x in walk_own(fi.node):
+                if isinstance(x, ast.If) and isinstance(x.test, ast.Compare) and short(x.test.left) == idx and isinstance(x.test.ops[0], ast.Lt) and isinstance(x.test.comparators[0], ast.Constant) and x.test.comparators[0].value == 0:
+                    if any(isinstance(y, ast.Assign) and short(y.targets[0]) == idx for y in x.body) and x.lineno <= n.lineno:
+                        adjusted = True
+            rejected = False
+            tgt = short(st.targets[0]) if isinstance(st, ast.Assign) else None
+            bound_names = {idx}
+            # the slice ends are copied into locals (start = s; stop = s + 1) that are tested later
+            for x in walk_own(fi.node):
+                if isinstance(x, ast.Assign) and isinstance(x.value, ast.Name) and x.value.id == idx:
+                    bound_names.add(short(x.targets[0]))
+            for x in walk_own(fi.node):
+                if isinstance(x, ast.If) and any(isinstance(y, ast.Raise) for y in x.body):
+                    for c in ast.walk(x.test):
+                        if isinstance(c, ast.Compare) and isinstance(c.ops[0], ast.Lt) and isinstance(c.comparators[0], ast.Constant) and c.comparators[0].value == 0 and short(c.left) in bound_names:
+                            rejected = True
+            ok = adjusted or rejected
+            out.append(Instance("R-NEGIDX", f"{fi.qual}#int-to-slice:{idx}", OK if ok else BAD,
+                                f"integer index `{idx}` is {'adjusted' if adjusted else 'rejected'} for negative values before becoming slice({idx}, {idx} + 1)" if ok
+                                else f"`{short(n)}` turns an integer index into a slice without handling negative values: index -1 becomes slice(-1, 0), a negative-length region", fi.where(n)))
+    return out
